@@ -17,7 +17,7 @@ from . import core
 # name -> (kind, role)
 NUMERIC = ["x", "z", "w"]
 INT = ["k"]
-TICKED = ["a b", "a_b"]  # back-tick-only pair that collides after sanitisation (alias path, S2)
+TICKED = ["a b", "a_b", "a|b"]  # names that all sanitise to the identifier a_b (alias path, S2)
 CATS = ["A", "B", "S"]  # A: object text, B: pandas Categorical with declared order, S: pandas default text dtype
 LEVELS = {
     "A": ["a", "b", "c", "d"],
@@ -41,7 +41,7 @@ def gen_universe(rng: random.Random, *, n_lo: int = 14, n_hi: int = 48, nulls: b
     if rng.random() < 0.6:
         cols["k"] = {"kind": "int", "lo": 0, "hi": rng.choice([3, 4, 6])}
     if rng.random() < ticked_p:
-        for name in TICKED:
+        for name in TICKED[:2] + (TICKED[2:] if rng.random() < 0.4 else []):
             cols[name] = {"kind": "float", "ties": False, "null_rate": 0.0}
     ncat = 0
     for name in CATS:
@@ -114,7 +114,8 @@ def universe_frame(u: dict) -> Any:
     return df
 
 
-def take(u: dict, ids: list[int], *, container: str = "pandas", index: str = "rid", mutate: Optional[dict] = None, recat: Optional[int] = None) -> Any:
+def take(u: dict, ids: list[int], *, container: str = "pandas", index: str = "rid", mutate: Optional[dict] = None, recat: Optional[int] = None,
+         keep_cols: Optional[list] = None) -> Any:
     """Build a data container holding universe rows ``ids`` (any subset / duplication / order).
 
     ``index``: 'rid' keeps row ids as labels (labels tied to content), 'range' gives a fresh RangeIndex,
@@ -123,6 +124,8 @@ def take(u: dict, ids: list[int], *, container: str = "pandas", index: str = "ri
     import pandas as pd
 
     df = universe_frame(u).iloc[list(ids)].copy()
+    if keep_cols is not None:
+        df = df[[c for c in df.columns if c in set(keep_cols)]]  # the caller's frame only carries these columns
     if recat is not None:
         # same values, same set of categories, different *declared order* of every category-dtype column
         for name in df.columns:
@@ -346,7 +349,7 @@ def gen_formula(rng: random.Random, u: dict, *, rich: bool = True, structured_p:
         else:
             pool = num
             if force_ticked and "a b" in cols and rng.random() < 0.6:
-                pool = ["a b", "a_b"]
+                pool = [c for c in TICKED if c in cols]
             v = rng.choice(pool)
             if cols[v]["kind"] == "int" and rng.random() < 0.4:
                 a = {"vars": [v], "kind": "cat", "cls": "C", "stateful": True, "bounded": False, "mean_based": False, "expr": f"C({q(v)})"}
